@@ -52,8 +52,9 @@ def clustersOf (d : Dir) : Except LoadErr (Arr × Dir) :=
     | none => .error (.missing "spike templates")
 
 /-- `_load_data` on the array files: the outcome AND the directory left behind, in every outcome.
-`bad` ⊆ {"spike_templates", "channel_map", "templates"}: attributes whose stored dtype the loader's whitelist refuses. -/
-def loadAny (inv : Arr → Arr) (bad : List String) (d : Dir) : Except AnyErr View × Dir :=
+`bad` ⊆ {"spike_templates", "channel_map", "templates"}: attributes whose stored dtype the loader's whitelist refuses.
+`one` = the cell standing for 1.0 (as in `C04.load`: the identity that replaces a missing whitening matrix). -/
+def loadAny (inv : Arr → Arr) (bad : List String) (d : Dir) (one : Cell := .num 1) : Except AnyErr View × Dir :=
   match timesOf d with                                                      -- model.py:350
   | none => (.error (.load (.missing "spike times")), d)
   | some (times, samples, tcells) =>
@@ -91,7 +92,7 @@ def loadAny (inv : Arr → Arr) (bad : List String) (d : Dir) : Except AnyErr Vi
     | none =>
       match wm with
       | some w => (none, d1 ++ [("whitening_mat_inv.npy", inv w)])
-      | none => (none, d1 ++ [("whitening_mat_inv.npy", { shape := [], data := [] })])
+      | none => (none, d1 ++ [("whitening_mat_inv.npy", inv (eye one ((atleast 1 (squeeze (scrub a1))).shape.headD 0)))])
   let similar := (readFile d2 ["similar_templates.npy"]).map fun a => atleast 2 (squeeze (scrub a))
   (.ok { times := times, samples := samples, amplitudes := amplitudes, spikeTemplates := squeeze (scrub a0),
          spikeClusters := sc, channelMap := atleast 1 (squeeze (scrub a1)),
@@ -110,6 +111,11 @@ def AnyErr.early : AnyErr → Bool
 
 /-- `np.unique` of an id vector (ids are non-negative: `Np.unique` lists the non-negative values present) -/
 def uniqueIds (a : Arr) : List Nat := Np.unique (a.data.map cellInt)
+
+/-- `ids` is `np.unique` of the cells `data`: strictly increasing, and an INTEGER is listed iff it occurs (stated over
+`Int`: a negative value that occurs would have to be listed too) -/
+def IsIdSetOf (ids : List Nat) (data : List Cell) : Prop :=
+  ids.Pairwise (· < ·) ∧ ∀ z : Int, (∃ v ∈ ids, (v : Int) = z) ↔ ∃ c ∈ data, cellInt c = z
 
 /-- `self.template_ids = np.unique(self.spike_templates)` (model.py:369) -/
 def View.templateIds (v : View) : List Nat := uniqueIds v.spikeTemplates
